@@ -279,6 +279,21 @@ CHECKS = {
         technique="Lean 4 proof over all permutations + regenerated typed inventory of order-sensitive sites + repetition sweep",
         ref="§5 C16",
     ),
+    "C17": dict(
+        text=("Proof (Lean 4) about DDP.Duden, the documented meaning of ~40 functions of Duden/Listen, Duden/Texte and Duden/Sortierung as "
+              "sequence operations on List Int / lists of code points: append/prepend lengths and ends, insert-then-delete is the "
+              "identity and the inserted element stands at its position (einfuegen_loesche, einfuegen_at), delete shortens by one, "
+              "mirroring is an involution, sum laws over concatenation, index-of is sound and complete for membership, SORTING is an "
+              "ordered permutation (sortiert_sorted, sortiert_perm), trimming is idempotent and leaves no leading separator, padding "
+              "lengths, comparison is reflexive and 0 only for equal texts, and JOIN AFTER SPLIT gives the text back "
+              "(verbinden_spalte). Tie: for each of ~45 call forms (value and Referenz variants) DDP programs call the real library "
+              "on generated in-domain arguments (lengths 0/1/2/3/5, duplicates, negative/large numbers, multi-byte characters), "
+              "print the result and the value arguments afterwards; the output is compared with `ddpmodel duden`. Three library "
+              "defects found this way were repaired (Trim, Spalte, Text_Index_Von_Text)."),
+        note=TB + "Only the listed functions; Kommazahl functions, Mathe/Statistik/Zeichen/… are not covered; case mapping on ASCII only.",
+        technique="Lean 4 proof of the laws of the documented sequence operations + differential runs of the real Duden library against them",
+        ref="§5 C17",
+    ),
     "C19": dict(
         text=("Proof (Lean 4): the three hand-written escape tables (scanner case list, parseChar, parseString — regenerated from the "
               "source) agree with each other and with the specification's escape map for every character; all images are single bytes (the "
